@@ -2260,6 +2260,8 @@ impl Kanata {
             && self.macro_on_press_cancel_duration == 0
             && self.move_mouse_state_horizontal.is_none()
             && self.dynamic_macro_replay_state.is_none()
+            // The pauses of a recording are counted in ticks.
+            && self.dynamic_macro_record_state.is_none()
             && self.caps_word.is_none()
             && self.vkeys_pending_release.is_empty()
             && !self.layout.b().states.iter().any(|s| {
